@@ -6,6 +6,8 @@ from ..blocks import all_tables, Table, own_span, tname, context, poke
 from ..explore import pmap, h
 from ..sensor_enum import own_values, read_outcome, compare
 
+Inverter = world.goodwe.Inverter
+
 
 def sensor_jobs(tier, seed):
     """(table index, sensor index, full?)"""
@@ -153,8 +155,10 @@ def job_table(j):
                 for s in t.sensors if own_span(s)]
     else:
         wins = None
-    words = [0x0000, 0x0001, 0x0040, 0x0100, 0x1234, 0x7FFF, 0x8000, 0x8001, 0xFFFE, 0x0303, 0x0040, 0x0001,
-             (seed * 2654435761 >> 7) & 0xFFFF, 0x0B0B, 0x173B, 0x00FF, 0x0601, 0x0017]
+    # several consecutive contents that make date / schedule sensors uninterpretable come first, valid ones after them:
+    # a value must not depend on how earlier responses decoded
+    words = [0x0000, 0x0001, 0x0040, 0x0100, 0x6363, 0x0B0B, 0x1234, 0x7FFF, 0x8000, 0x8001, 0xFFFE, 0x0303, 0x0040, 0x0001,
+             (seed * 2654435761 >> 7) & 0xFFFF, 0x0B0B, 0x173B, 0x00FF, 0x0601, 0x0017, 0x0000, 0x0000, 0x0000, 0x0000, 0x0601]
     n = 0
     out = {}
     for order in ('forward', 'reverse', 'forward'):
@@ -167,18 +171,47 @@ def job_table(j):
                 pairs = [(s, tab, tab.response(pat * (tab.nbytes // 2))) for s, tab in wins]
             if order == 'reverse':
                 pairs = pairs[::-1]
+            # the reporting path: Inverter._map_response (what read_runtime_data / read_settings_data hand out)
+            mapped = {}
+            if wins is None:
+                try:
+                    mapped = Inverter._map_response(resp, tuple(x for x, _, _ in pairs))
+                except BaseException:  # noqa: BLE001  (totality is C11's business)
+                    mapped = None
             for s, tab, resp in pairs:
                 pos = tab.byte_pos(s)
                 nb = refdec.size_of(s)
-                own = (pat * (tab.nbytes // 2 + 2))[pos % 2: pos % 2 + nb] if tab.mode != 'modbus' else (pat * 8)[:nb]
+                own = (pat * 8)[:nb]
                 if tab.mode != 'modbus':
                     own = bytes(resp.response_data()[pos:pos + nb])
-                got = read_outcome(s, resp)
-                ref = refdec.decode(s, own) if len(own) == nb else None
-                n += 1
                 if len(own) != nb:
                     continue
+                ref = refdec.decode(s, own)
+                got = read_outcome(s, resp)
+                n += 1
                 d = compare(s, got, ref)
+                if wins is not None:
+                    try:
+                        rep_v = Inverter._map_response(resp, (s,))
+                    except BaseException:  # noqa: BLE001
+                        rep_v = None
+                else:
+                    rep_v = mapped
+                if d is None and rep_v is not None and got[0] != 'raised':
+                    # reported value == directly decoded value (None where the registers are uninterpretable)
+                    r_ = rep_v.get(s.id_, 'missing')
+                    dup = sum(1 for x, _, _ in pairs if x.id_ == s.id_) > 1
+                    if not dup:
+                        if got[0] == 'ValueError':
+                            if r_ is not None:
+                                d = f'reported {str(r_)[:40]!r} although its registers are uninterpretable'
+                        elif isinstance(ref, dict):
+                            if r_ is None or refdec.group_matches(r_, ref):
+                                d = f'reported {str(r_)[:40]!r}, registers decode to a valid group'
+                        elif not (refdec.same(r_, got[1]) or r_ == got[1]):
+                            d = f'reported {r_!r} but its registers decode to {got[1]!r}'
+                        if d:
+                            d += ' (reporting path, after earlier responses in the same process)'
                 if d:
                     key = f'own-registers-only/{t.family}/{tname(s)}'
                     out.setdefault(key, []).append(dict(key=key, clause='value depends on other sensors / earlier reads',
